@@ -1494,13 +1494,20 @@ class Server:
                     timeout=connection.socket_timeout,
                 )
 
+        if connection.future.passive_server_starting.done():
+            # a pipelined PASV/EPSV is opening the listener right now: there
+            # is one listener per session, wait for that one
+            await connection.future.passive_server
         if not connection.future.passive_server.done():
             coro = self._start_passive_server(connection, handler)
+            connection.passive_server_starting = True
             try:
                 connection.passive_server = await coro
             except errors.NoAvailablePort:
                 connection.response("421", ["no free ports"])
                 return False
+            finally:
+                del connection.passive_server_starting
             code, info_template = "227", "listen socket created {address}"
         else:
             code, info_template = "227", "listen socket already exists {address}"
@@ -1543,13 +1550,18 @@ class Server:
             code, info = "522", ["custom protocols support not implemented"]
             connection.response(code, info)
             return False
+        if connection.future.passive_server_starting.done():
+            await connection.future.passive_server
         if not connection.future.passive_server.done():
             coro = self._start_passive_server(connection, handler)
+            connection.passive_server_starting = True
             try:
                 connection.passive_server = await coro
             except errors.NoAvailablePort:
                 connection.response("421", ["no free ports"])
                 return False
+            finally:
+                del connection.passive_server_starting
             code, info = "229", ["listen socket created"]
         else:
             code, info = "229", ["listen socket already exists"]
